@@ -115,6 +115,10 @@ type Scenario struct {
 	// Switch: from epoch At on, the turnovers receive another options object (same population size and executor, other
 	// thresholds / rates), as a caller that adapts its settings during a run passes them; the executor object stays the same
 	Switch *OptSwitch `json:"switch,omitempty"`
+	// IdsMod > 0: after construction the organisms' genome ids are overwritten with index modulo IdsMod (ids are plain numbers a
+	// caller may set; the library's own fixtures give all organisms of a species one id) - the property statements do not
+	// involve the ids of the generation that is turned over
+	IdsMod int `json:"genome_ids_modulo,omitempty"`
 }
 
 type OptSwitch struct {
@@ -134,6 +138,7 @@ type ScenarioCfg struct {
 	HugeFitness  bool // also draw fitness scales close to the largest finite float64 (sums overflow to +Inf)
 	NoSwitch     bool // never change the options object during the history
 	ModularStart bool // one history in six is spawned from a modular start genome
+	DupIds       bool // one history in five starts with non-unique genome ids
 }
 
 func genScenario(cfg ScenarioCfg) *rapid.Generator[Scenario] {
@@ -177,6 +182,9 @@ func genScenario(cfg ScenarioCfg) *rapid.Generator[Scenario] {
 		}
 		if sc.Ctor == "reread" {
 			sc.PreEpochs = rapid.IntRange(1, 8).Draw(t, "pre epochs")
+		}
+		if cfg.DupIds && rapid.IntRange(0, 4).Draw(t, "duplicate genome ids") == 0 {
+			sc.IdsMod = rapid.IntRange(1, 3).Draw(t, "ids modulo")
 		}
 		if !cfg.NoSwitch && sc.Epochs >= 2 && rapid.IntRange(0, 3).Draw(t, "switch options") == 0 {
 			o2 := drawOpts(t, OptsCfg{MinPop: cfg.MinPop, MaxPop: cfg.MaxPop, Structural: cfg.Structural})
@@ -302,6 +310,12 @@ func runScenario(sc Scenario, h epochHooks, rec *Rec) error {
 		if err := h.built(pop, opts); err != nil {
 			return fmt.Errorf("after construction: %v", err)
 		}
+	}
+	if sc.IdsMod > 0 {
+		for i, o := range pop.Organisms {
+			o.Genotype.Id = i % sc.IdsMod
+		}
+		rec.Class("organisms start with non-unique genome ids")
 	}
 	ctx := opts.NeatContext()
 	exec := newExecutor(opts)
